@@ -2109,3 +2109,42 @@ mod tests {
         assert_eq!(stream.write(&data), Err(WriteError::Blocked));
     }
 }
+
+#[cfg(feature = "verif-hooks")]
+impl StreamsState {
+    pub(in crate::connection) fn verif_probe(&self) -> crate::verif::VerifStreamsProbe {
+        let mut recv_buffered = 0;
+        let mut recv_allocated = 0;
+        let mut recv_buffered_max_stream = 0;
+        for recv in self.recv.values().flatten() {
+            if let Some(recv) = recv.as_open_recv() {
+                let (b, a) = recv.assembler.verif_buffered();
+                recv_buffered += b;
+                recv_allocated += a;
+                recv_buffered_max_stream = recv_buffered_max_stream.max(b);
+            }
+        }
+        crate::verif::VerifStreamsProbe {
+            next: self.next,
+            max: self.max,
+            max_remote: self.max_remote,
+            next_remote: self.next_remote,
+            allocated_remote_count: self.allocated_remote_count,
+            send_streams: self.send_streams,
+            max_data: self.max_data,
+            data_sent: self.data_sent,
+            data_recvd: self.data_recvd,
+            local_max_data: self.local_max_data,
+            sent_max_data: self.sent_max_data.into_inner(),
+            receive_window: self.receive_window,
+            stream_receive_window: self.stream_receive_window,
+            unacked_data: self.unacked_data,
+            send_window: self.send_window,
+            recv_buffered,
+            recv_allocated,
+            recv_buffered_max_stream,
+            recv_entries: self.recv.len(),
+            send_entries: self.send.len(),
+        }
+    }
+}
